@@ -645,7 +645,9 @@ func (c *vlChecker) checkLine(l *vlLine) (*vlRendered, *vlPoint) {
 		text = append(append([]byte(nil), text...), '\n')
 	}
 	c.counters["lines"]++
-	c.forms[fmt.Sprintf("%v|%v|%v|%v|%v|%v|%v|%v|%s%d|%s|%s", l.Form.Lead, l.Form.Meas, l.Form.Tags, l.Form.Sep1, l.Form.Fields, l.Form.Sep2, l.Form.Tail, l.Pad, l.Ts.Base, l.Ts.Off, l.Prec, l.Expect.Res)] = true
+	if l.W >= 1 { // non-trivial: at least one element is not in its default form
+		c.forms[fmt.Sprintf("%v|%v|%v|%v|%v|%v|%v|%v|%s%d|%s|%s", l.Form.Lead, l.Form.Meas, l.Form.Tags, l.Form.Sep1, l.Form.Fields, l.Form.Sep2, l.Form.Tail, l.Pad, l.Ts.Base, l.Ts.Off, l.Prec, l.Expect.Res)] = true
+	}
 	res := vlParse(text, l.Prec)
 	show := func() string {
 		t := r.text
